@@ -5,9 +5,10 @@
      not need a prediction of argsort's tie order) and the property oracles are evaluated on
      the observations themselves;
    - DeferCase: operations captured on a future-backed sample set, resolved afterwards;
-   - AsCase: as_samples of one assignment table in several accepted forms. *)
+   - AsCase: as_samples of one assignment table in several accepted forms;
+   - AliasCase: several handles on one future, record sharing observed (Model/Alias.v). *)
 From Coq Require Import List ZArith QArith Qcanon Bool Arith.
-From Dimod Require Import Base.Util Model.Poly Model.Samples Model.SSet Model.Narrow.
+From Dimod Require Import Base.Util Model.Poly Model.Samples Model.SSet Model.Narrow Model.Alias.
 Import ListNotations.
 Open Scope Qc_scope.
 
@@ -17,7 +18,49 @@ Inductive step :=
 (* a sorted slice / `first` together with what np.argsort returned for the same key vector: the
    implementation's result must be EXACTLY the code shape record[order[selector]] / record[order[0]] *)
 | StepSorted (k : skey) (a b c : option Z) (order : list nat) (post : sset)
-| StepFirstAt (order : list nat) (seen : option row).
+| StepFirstAt (order : list nat) (seen : option row)
+| StepConcatD (others : list sset) (defs : list (nat * Qc)) (post : option sset)      (* read-only: the receiver is kept *)
+(* SampleSet.data(sorted_by=k, reverse=..., index=True): (idx, row) as yielded; index=True asks numpy for a STABLE
+   argsort, so the order is determined: order = argsort_stable(keys), flipped when reverse *)
+| StepData (k : option skey) (reverse : bool) (seen : list (nat * row))
+(* SampleSet.samples(n, sorted_by=k) (also iter(sampleset)): the sample rows of record.sample[order][:n], with
+   `order` what np.argsort returned for the same key vector *)
+| StepSamples (k : option skey) (n : option Z) (order : list nat) (seen : list (list Qc)).
+
+(* dimod.concatenate(samplesets, defaults=...) when the sample sets do NOT carry the same data vectors
+   (numpy.lib.recfunctions.stack_arrays, usemask=False): the result has the first set's vectors followed by the new
+   ones in order of appearance; a row takes a missing vector's value from `defaults`, else numpy's fill value for
+   floats (1e20) *)
+Definition np_float_fill : Qc := qc 100000000000000000000 1.
+Definition union_fields (first : list nat) (others : list (list nat)) : list nat :=
+  fold_left (fun acc fs => acc ++ filter (fun f => negb (memb f acc)) fs) others first.
+Fixpoint field_pos (f : nat) (fs : list nat) : option nat :=
+  match fs with [] => None | g :: r => if (g =? f)%nat then Some 0%nat else option_map S (field_pos f r) end.
+Definition refield (res : list nat) (defs : list (nat * Qc)) (fs : list nat) (r : row) : row :=
+  mkRow (vals r) (en r) (oc r) (tag r)
+        (map (fun f => match field_pos f fs with
+                       | Some i => nth i (extra r) 0
+                       | None => match find (fun d => (fst d =? f)%nat) defs with Some d => snd d | None => np_float_fill end
+                       end) res).
+Fixpoint concat_rows_d (res : list nat) (defs : list (nat * Qc)) (first : sset) (others : list sset) : option (list row) :=
+  match others with
+  | [] => Some []
+  | o :: rest =>
+      let o' := if vartype_eqb (vt o) (vt first) then Some o
+                else match change_vartype_ss (vt first) 0 o with Ok x => Some x | Fail _ => None end in
+      match o', concat_rows_d res defs first rest with
+      | Some x, Some more =>
+          if same_set (labels x) (labels first)
+          then Some (map (fun r => refield res defs (fields x) (recolumn (labels first) (labels x) r)) (rws x) ++ more) else None
+      | _, _ => None
+      end
+  end.
+Definition concat_d (others : list sset) (defs : list (nat * Qc)) (s : sset) : option sset :=
+  let res := union_fields (fields s) (map fields others) in
+  match concat_rows_d res defs s others with
+  | Some more => Some (mkSS (labels s) (vt s) (map (refield res defs (fields s)) (rws s) ++ more) 0%nat res)
+  | None => None
+  end.
 
 Inductive case :=
 | SeqCase (K : lkeys) (sortl : bool) (init seen0 : sset) (steps : list step)
@@ -25,7 +68,11 @@ Inductive case :=
 | AsCase (ref_labels : list label) (ref_rows : list (list Qc)) (outs : list (option (list label * list (list Qc))))
 (* as_samples of integer values given WITHOUT dtype in a list-like form: the bit width of the signed integer
    dtype of the returned array (None = ValueError) must be the model's choice *)
-| NarrowCase (vals : list Z) (seen : option nat).
+| NarrowCase (vals : list Z) (seen : option nat)
+(* a history over several handles on ONE future (its result object, two from_future sample sets, every object
+   returned by relabel_variables / change_vartype issued before or after the result exists), with a dump of
+   every resolved object (content + record sharing) after every event: Model/Alias.v *)
+| AliasCase (evs : list (aev * dump)).
 
 Definition same_frame (a b : sset) : bool :=
   list_eqb Nat.eqb (labels a) (labels b) && vartype_eqb (vt a) (vt b) && (info a =? info b)%nat
@@ -72,6 +119,21 @@ Definition step_ok (K : lkeys) (cur : sset) (st : step) : bool * sset :=
        | Some r, Some r' => argsort_ok_b (map en (rws cur)) order && row_eqb r r' && first_ok (rws cur) r'
        | _, _ => false
        end, cur)
+  | StepConcatD others defs post => (option_eqb sset_eqb (concat_d others defs cur) post, cur)
+  | StepData k reverse seen =>
+      (let rows := rws cur in
+       let order := match k with None => seq 0 (length rows) | Some k' => argsort_stable (map (key_of k') rows) end in
+       let order' := if reverse then rev order else order in
+       list_eqb Nat.eqb (map fst seen) order'
+       && forallb (fun p => row_eqb (nth (fst p) rows rowz) (snd p)) seen, cur)
+  | StepSamples k n order seen =>
+      (let rows := rws cur in
+       match k with
+       | None => list_eqb Nat.eqb order (seq 0 (length rows))
+       | Some k' => argsort_ok_b (map (key_of k') rows) order
+       end
+       && list_eqb qlist_eqb seen
+            (map vals (slice_sorted_code order (slice_indices (length rows) None n None) rows)), cur)
   | StepFirst seen =>
       (match rws cur, seen with
        | [], None => true
@@ -119,4 +181,5 @@ Definition check (c : case) : bool :=
       && option_eqb sset_eqb (drun K base calls (if pending then DPending [] else DResolved base)) seen
   | AsCase rl rr outs => forallb (as_out_ok rl rr) outs
   | NarrowCase vals seen => option_eqb Nat.eqb (narrow vals) seen
+  | AliasCase evs => alias_check evs
   end.
